@@ -97,6 +97,7 @@ var mutantCatalogue = map[string][]mutant{
 		{Name: "rollback forgets the replaced writes", File: "risc/app.go", Old: "\t\tfor _, overwritten := range ctx.transactionOverwritten[register] {\n\t\t\tif overwritten.sequenceID < sequenceID && (tu.sequenceID >= sequenceID || overwritten.sequenceID > tu.sequenceID) {\n\t\t\t\ttu = overwritten\n\t\t\t}\n\t\t}\n", New: ""},
 	},
 	"C07": {
+		{Name: "completed read forgets its handle from the write-lock table", File: "proc/mvp7-0/cc.go", Old: "\t\tdelete(cc.rlockSems, getAlignedMemoryAddress(r.addrs))", New: "\t\tdelete(cc.lockSems, getAlignedMemoryAddress(r.addrs))"},
 		{Name: "decode fetches the instruction at index len", File: "proc/mvp7-0/du.go", Old: "if int(pc)/4 >= len(app.Instructions) {", New: "if int(pc)/4 > len(app.Instructions) {"},
 		{Name: "write-back stores at index len (7.0)", File: "proc/mvp7-0/mmu.go", Old: "\t\tif int(addr)+i >= len(u.ctx.Memory) {\n\t\t\treturn", New: "\t\tif int(addr)+i > len(u.ctx.Memory) {\n\t\t\treturn"},
 		{Name: "ret drain steps only the idle units", File: "proc/mvp6-1/cpu.go", Old: "\t\t\t\t\tif !eu.isEmpty() {\n\t\t\t\t\t\tresp := eu.Cycle", New: "\t\t\t\t\tif eu.isEmpty() {\n\t\t\t\t\t\tresp := eu.Cycle"},
@@ -218,6 +219,7 @@ var mutantCatalogue = map[string][]mutant{
 		{Name: "L3 dirty flag keyed by the L1 alignment", File: "proc/mvp8-0/cc.go", Old: "\tl3Addr := getL3AlignedMemoryAddress([]int32{int32(l1Addr)})\n\tcc.msi.l3WriteNotify(l3Addr)", New: "\tl3Addr := getL1AlignedMemoryAddress([]int32{int32(l1Addr)})\n\tcc.msi.l3WriteNotify(l3Addr)"},
 	},
 	"C06": {
+		{Name: "a Modified line displaced by a plain evict", File: "proc/mvp7-1/msi.go", Old: "\t\treturn m.sendNewMSICommand(id, alignedAddr, writeBack)\n\tdefault:\n\t\treturn nil", New: "\t\treturn m.sendNewMSICommand(id, alignedAddr, evict)\n\tdefault:\n\t\treturn nil"},
 		{Name: "L3 line lock keyed at the L1 line size", File: "proc/mvp8-0/msi.go", Old: "\taddr := getL3AlignedMemoryAddress(addrs)\n", New: "\taddr := getL1AlignedMemoryAddress(addrs)\n"},
 		{Name: "L1 insertion guarded by an L3 presence test", File: "proc/mvp8-0/cc.go", Old: "if cc.isAddressInL1([]int32{int32(addr)}) {", New: "if cc.isAddressInL3([]int32{int32(addr)}) {"},
 		{Name: "L1 evict handler evicts from L3", File: "proc/mvp8-0/cc.go", Old: "\t\t\t\t_, _ = cc.l1d.EvictCacheLine(req.alignedAddr)\n\t\t\t\tinfo.done()", New: "\t\t\t\t_, _ = cc.l3.EvictCacheLine(req.alignedAddr)\n\t\t\t\tinfo.done()"},
